@@ -33,8 +33,7 @@ Lemma segment_line_ok' line more col minCol pending need rest col2 W :
 Proof.
   intros Hl Hadj Hg HW. cbn [lay_ok]. rewrite Hl, Hadj, Hg.
   destruct W as [|c W']; [reflexivity|]. destruct HW as [Hf HW]. rewrite Hf.
-  replace (match pending with Some _ => true | None => true end) with true by (destruct pending; reflexivity).
-  cbn [andb]. destruct W' as [|n' r']; [subst c; apply Ascii.eqb_refl|exact HW].
+  destruct W' as [|n' r']; [subst c; apply Ascii.eqb_refl|exact HW].
 Qed.
 
 (** a line on which the value ends *)
@@ -153,13 +152,19 @@ Proof.
   intros p minCol H. unfold fm_ok in H.
   destruct (fm_first p) as [|f fr] eqn:Ef; [discriminate|].
   repeat (apply andb_true_iff in H; destruct H as [H ?]).
-  rename H into Hns, H0 into Hlast, H1 into Hmid, H2 into Hm, H3 into Hmem, H4 into Hopen, H5 into Hf.
+  rename H into Hnn, H0 into Hlast, H1 into Hmid, H2 into Hm, H3 into Hmem, H4 into Hopen, H5 into Hf, H6 into Hns, H7 into Hasc.
   apply negb_true_iff in Hf. apply negb_true_iff in Hopen. apply negb_true_iff in Hmem. apply Z.leb_le in Hm.
-  unfold node_ok, fm_node, fm_value. cbn [sn_value sn_line sn_col]. rewrite Ef. cbn [append].
+  unfold node_ok, fm_node, mksn0. cbn [sn_value sn_line sn_col sn_block sn_anchor].
+  unfold fm_value in *. rewrite Ef in *. cbn [append] in *.
+  rewrite Hnn. cbn [andb].
   replace (1 <=? Z.of_nat (List.length (fm_pre p)) + 1) with true by (symmetry; apply Z.leb_le; lia).
   cbn [andb]. unfold fm_lines.
   replace (Z.to_nat (Z.of_nat (List.length (fm_pre p)) + 1 - 1)) with (List.length (fm_pre p)) by lia.
-  rewrite skipn_app_exact. rewrite Ef.
+  rewrite skipn_app_exact. rewrite Ef. cbv zeta.
+  assert (Hl0 : slen (fm_keyline_pre p ++ fm_open p ++ String f fr) =? 0 = false).
+  { apply Z.eqb_neq. rewrite !slen_app, slen_String. pose proof (slen_nonneg (fm_keyline_pre p)).
+    pose proof (slen_nonneg (fm_open p)). pose proof (slen_nonneg fr). lia. }
+  rewrite Hl0. rewrite (first_col_plain _ _ _ _ Hasc).
   set (V := pm_suffix (fm_mid p ++ [fm_last p])).
   (* the token on the key line starts with a non-blank byte *)
   assert (Htok : exists c r, (fm_open p ++ String f fr)%string = String c r /\ Ascii.eqb c space = false).
